@@ -106,7 +106,8 @@ func c09Run(s *c09Scn, segName string) verdict {
 			}
 		})
 		if !fin1 || e1 != nil {
-			v.OK, v.Sig, v.Detail = false, "TOOL", fmt.Sprintf("the preliminary session failed: fin=%v err=%v", fin1, e1)
+			// an Open like any other: the hello of the preliminary session is in order
+			fail(&v, "C09:open-outcome:preliminary-session", "the preliminary session (hello with base:1.0 only, session-id 999) failed: returned=%v err=%v", fin1, e1)
 
 			return v
 		}
